@@ -164,4 +164,29 @@ example : ((run (init [0, 5, 7] [.iterAll, .iterAll, .index 1])
              (.done, [0, 5], some (.val (some 5)))] := by decide +kernel
 example : measure (init [0, 1, 2] [.iterAll, .iterAll]) = 412 := by decide
 
+/-! ### the theorem distinguishes the two programs
+
+`stepOld` is the machine of the program before fix a459cd4 (the two `break`s leave the fill loop
+without `release()`).  Over 11 instants, with iterator 1 advanced once, iterator 0 run to its end
+(it performs the final fill and keeps the lock), iterator 1 then walks the cache and blocks in
+`acquire()` forever: a reachable deadlock of the old program.  The very same schedule on the
+real `step` ends with both iterators finished — and `no_deadlock` above says no schedule
+whatsoever can dead-lock it. -/
+
+def deadlockSchedule : List Tid := List.replicate 50 1 ++ List.replicate 160 0 ++ List.replicate 80 1
+
+def src11 : List Int := [0, 1, 2, 3, 4, 5, 6, 7, 8, 9, 10]
+
+example : ∃ sched, deadlocked stepOld (runOld (init src11 [.iterAll, .iterAll]) sched) = true :=
+  ⟨deadlockSchedule, by decide +kernel⟩
+
+-- where it is stuck: iterator 0 finished holding the lock, iterator 1 at `acquire()` (line 132) having received all 11 values
+example : ((runOld (init src11 [.iterAll, .iterAll]) deadlockSchedule).sh.lock,
+           (runOld (init src11 [.iterAll, .iterAll]) deadlockSchedule).its.map (fun it => (it.pc, it.yielded.length)))
+          = (some 0, [(.done, 11), (.l132, 11)]) := by decide +kernel
+
+example : deadlocked step (run (init src11 [.iterAll, .iterAll]) deadlockSchedule) = false ∧
+          (run (init src11 [.iterAll, .iterAll]) deadlockSchedule).its.map (fun it => (it.pc, it.yielded.length))
+            = [(.done, 11), (.done, 11)] := by decide +kernel
+
 end C11
